@@ -21,8 +21,8 @@ WT = "/tmp/wt_seedverify"
 ENV = dict(os.environ, CARGO_NET_OFFLINE="true", CARGO_TERM_COLOR="never")
 
 
-def sh(cmd, cwd=None, timeout=3600):
-    p = subprocess.run(cmd, cwd=cwd, env=ENV, stdout=subprocess.PIPE, stderr=subprocess.STDOUT, text=True, timeout=timeout)
+def sh(cmd, cwd=None, timeout=7200, env=None):
+    p = subprocess.run(cmd, cwd=cwd, env=env or ENV, stdout=subprocess.PIPE, stderr=subprocess.STDOUT, text=True, timeout=timeout)
     return p.returncode, p.stdout
 
 
@@ -93,9 +93,19 @@ def detect(d, props):
         return 2
     results = {}
     try:
+        meta = {}
+        try:
+            meta = json.load(open(os.path.join(d, "meta.json")))
+        except (OSError, ValueError):
+            pass
+        tier = meta.get("detect_tier", "quick")
+        env = dict(ENV)
+        if meta.get("detect_only_phases"):
+            # a partial thorough run: can refute (exit 1), never comes out as held
+            env["VERIF_ONLY_PHASES"] = meta["detect_only_phases"]
         for p in props:
             t0 = time.time()
-            rc, out = sh([sys.executable, os.path.join(VERIF, "run.py"), "check", p, "quick"], cwd=VERIF)
+            rc, out = sh([sys.executable, os.path.join(VERIF, "run.py"), "check", p, tier], cwd=VERIF, env=env)
             sigs = re.findall(r"^\[" + p + r"\] (C\d\d\|[^\n]*?) \(x\d+\)", out, re.M)
             results[p] = {"exit": rc, "violations": len(re.findall(r"^VIOLATION", out, re.M)), "signatures": sigs[:6],
                           "inconclusive": re.findall(r"^INCONCLUSIVE[^\n]*", out, re.M)[:2], "wall_s": round(time.time() - t0, 1)}
